@@ -170,7 +170,7 @@ PROPS = {
     "C18": {
         "n_quick": 5000, "n_thorough": 150000,
         "technique": "Coq proof (escape/unescape round trip by induction over all byte strings, finite hex-digit facts by computation) + correspondence on accessor outputs and a Set-Cookie/Cookie exchange",
-        "level_text": "proof (partial): C18_cookie_roundtrip, C18_unescape_escape, C18_escaped_value_is_cookie_safe for every byte string; C18_default_rule_present/absent for the accessor rule; C18_query_parse_encode / C18_query_first_value / C18_query_all_values / C18_query_bad_piece_skipped for how a value is found in the raw query string (model of net/url.ParseQuery: Query.v); tied to the code by reading Query/QueryTrim/QueryUnescape/QueryBool/QueryInt/QueryInt64/Param/ParamInt/ParamInt64/Cookie with and without defaults for arbitrary byte strings (control bytes, separators, quotes, non-ASCII, huge numbers) and by feeding the Set-Cookie header back as a Cookie header",
+        "level_text": "proof (partial): C18_cookie_roundtrip, C18_unescape_escape, C18_escaped_value_is_cookie_safe for every byte string; C18_default_rule_present/absent for the accessor rule; C18_query_parse_encode / C18_query_first_value / C18_query_absent_gives_default / C18_query_all_values / C18_query_bad_piece_skipped for how a value is found in the raw query string (model of net/url.ParseQuery: Query.v); tied to the code by reading Query/QueryTrim/QueryUnescape/QueryBool/QueryInt/QueryInt64/Param/ParamInt/ParamInt64/Cookie with and without defaults for arbitrary byte strings (control bytes, separators, quotes, non-ASCII, huge numbers) and by feeding the Set-Cookie header back as a Cookie header",
         "level_note": "trusts Coq kernel, extraction, glue; net/url escaping, url.ParseQuery with Values.Get (Query.v), strconv integer/bool parsing, strings.TrimSpace (ASCII and 2-byte Unicode spaces) and the cookie byte rule are re-implemented and validated by the correspondence; ParseFloat and net/http's cookie header parsing are oracles (partial)",
         "rule": "query value, path parameter and cookie value drawn from a 46-string pool (empty, spaces, %-sequences, booleans, decimal numbers incl. int64 boundaries and overflow, underscores, hex, control bytes, separators ; , space quote backslash, NUL, DEL, invalid UTF-8, 2-byte Unicode spaces) or random bytes; each default present half of the time; one case in five rewrites the query while the request is served and reads it again. Non-trivial: the cookie value contains a byte that needs escaping; distinct by input.",
         "what": "13 accessor outputs per case vs model; spec: no panic, cookie read back = value written, absent parameter yields the caller's default unchanged or zero.",
